@@ -120,9 +120,12 @@ class ClientBuilder:
         if snapshot:
             self.op(op="snapshot", tag="after_init")
 
-    def shutdown(self):
+    def shutdown(self, stall_until=None):
         self.call("airtouch", "shutdown")
         self.op(op="quiesce")
+        if stall_until is not None:  # the close of a stalled link takes its time: shutdown() is still in progress then
+            self.op(op="advance", to=stall_until)
+            self.op(op="quiesce")
         self.op(op="resume")         # a close waiting for a stalled buffer to drain may complete now
         self.op(op="quiesce")
         self.op(op="resolve_all", how="ok")
@@ -262,11 +265,24 @@ def c08_script(seed, proto):
             b.op(op="advance", to=300000 * j + 125)
             b.op(op="feed", b=version_frame(proto, pid=rng.randrange(256)), tag="hb_response")
             b.op(op="quiesce")
-        base = 300000 * max(0, n0 - 1) + rng.choice([1000, 150000, 250000])
-        b.op(op="advance", to=base)
-        b.op(op="auto", how="")
-        b.shutdown()
-        base += 10000
+        if rng.random() < 0.4:
+            # the console stops reading shortly before the shutdown, so closing the link takes a while - and
+            # the moment of the next beat passes while shutdown() is still in progress.  The second session
+            # is owed its beats and its watchdog all the same.
+            tick = 300000 * max(1, n0)
+            b.op(op="advance", to=tick - 1000)
+            b.op(op="pause")
+            b.op(op="advance", to=tick - 500)
+            b.op(op="auto", how="")
+            b.shutdown(stall_until=tick + rng.choice([500, 5000]))
+            base = b.script[-8]["to"] + 10000
+            assert b.script[-8]["op"] == "advance"
+        else:
+            base = 300000 * max(0, n0 - 1) + rng.choice([1000, 150000, 250000])
+            b.op(op="advance", to=base)
+            b.op(op="auto", how="")
+            b.shutdown()
+            base += 10000
         session = 2
     b.init(inst, snapshot=False)
     b.op(op="auto", how="ok")
@@ -447,6 +463,22 @@ def c14_script(seed, proto):
         if outage:
             b.op(op="auto", how="refuse")
             b.op(op="resolve_all", how="refuse")
+            # the application keeps issuing commands while the link is down: they are held (at most ten,
+            # for 30 s each).  Whatever is left of them when the link returns - nothing, some, a buffer
+            # full of expired ones - the refresh requests still go out.  (Ten LIVE ones are not
+            # generated: there C16 - the eleventh message overflows - and C14 meet, see DESIGN 11.3.)
+            ncmd = rng.choice([0, 0, 1, 5, 9, 10])
+            if outage <= 30000:
+                ncmd = min(ncmd, 8)
+            for _ in range(ncmd):
+                if inst["zones"] and rng.random() < 0.7:
+                    z = rng.choice(inst["zones"])
+                    b.call(f"zone:{z['n']}", "set_power", [E("ZonePowerState", rng.choice(["ON", "OFF"]))], None)
+                else:
+                    a = rng.choice(inst["acs"])
+                    b.call(f"ac:{a['n']}", "set_power", [E("AcPowerControl", rng.choice(["TURN_ON", "TURN_OFF"]))], None)
+            if ncmd:
+                b.op(op="quiesce")
             t += outage
             b.op(op="advance", to=t)
         if rng.random() < 0.3:
